@@ -23,6 +23,10 @@
 (*                  Refuse is the only continuation (the implementation     *)
 (*                  must raise); an OPTIONAL gate allows both               *)
 (*   Import         reads the document: out = the circuit, CNOT == CX       *)
+(*   Convert(f2)    direct translation of the exported document into a      *)
+(*                  second external format f2 (fmt2), enabled iff f2 also   *)
+(*                  supports every gate, else ConvertRefuse; Import then    *)
+(*                  reads format f2                                         *)
 (*   ReprEval(g)    out = g  (all five attributes)                          *)
 (*   AddTerm / OpRoundTrip   out = value of the operator (Pauli.tla)        *)
 (*                                                                         *)
@@ -40,6 +44,7 @@ CONSTANTS Widths,      \* set of circuit widths / operator sizes explored
           StrToks,     \* additional (string) tokens offered to repr
           MaxCtrl,     \* 1 or 2 controls
           Fmts,        \* circuit formats explored
+          ConvTargets, \* target formats of direct conversions ({} switches Convert off)
           OpFmts,      \* operator formats explored
           Kinds,       \* subset of {"circuit", "gate", "op"}
           MaxTerms,    \* operators of at most MaxTerms terms (duplicates allowed: they add up)
@@ -64,14 +69,16 @@ FmtIonq   == {"ionq"}
 FmtPq     == {"projectq"}
 FmtQasm   == {"openqasm"}
 FmtAll3   == {"ionq", "projectq", "openqasm"}
+NoConv    == {}
+ConvAll   == {"ionq", "projectq", "cirq", "sympy"}
 OpFmtAll  == {"cirq", "openfermion"}
 KCircuit  == {"circuit"}
 KGate     == {"gate"}
 KOp       == {"op"}
 KAll      == {"circuit", "gate", "op"}
 
-VARIABLES kind, fmt, n, obj, status, doc, out, style
-vars == <<kind, fmt, n, obj, status, doc, out, style>>
+VARIABLES kind, fmt, fmt2, n, obj, status, doc, out, style
+vars == <<kind, fmt, fmt2, n, obj, status, doc, out, style>>
 
 \* qubits offered to the gate alphabet: every qubit of a small register; on a WIDE register (multi-digit indices:
 \* a classic parsing boundary - single \\d regexes, string sorting, string max) a few low qubits, the indices around
@@ -104,9 +111,13 @@ Init == /\ kind \in Kinds
         /\ status = "build"
         /\ doc = NilCirc
         /\ out = NilCirc
+        /\ fmt2 = "none"
 
-Rec(st, o) == [kind |-> kind, fmt |-> fmt, n |-> n, obj |-> obj, style |-> style, status |-> st, out |-> o,
-               cls |-> (IF kind = "circuit" THEN CircClass(obj, fmt) ELSE "supported")]
+Worse(a, b) == IF "unsupported" \in {a, b} THEN "unsupported" ELSE IF "optional" \in {a, b} THEN "optional" ELSE "supported"
+Rec(st, o) == [kind |-> kind, fmt |-> fmt, fmt2 |-> fmt2, cls1 |-> (IF kind = "circuit" THEN CircClass(obj, fmt) ELSE "supported"), n |-> n, obj |-> obj, style |-> style, status |-> st, out |-> o,
+               cls |-> (IF kind = "circuit"
+                        THEN (IF fmt2 = "none" THEN CircClass(obj, fmt) ELSE Worse(CircClass(obj, fmt), CircClass(obj, fmt2)))
+                        ELSE "supported")]
 EmitRec(st, o) == Emit => PrintT(<<"TR", ToJson(Rec(st, o))>>)
 
 \* ---- circuits ----------------------------------------------------------------
@@ -114,20 +125,20 @@ AddGate(g) ==
   /\ kind = "circuit" /\ status = "build" /\ Len(obj) < MaxLen
   /\ (GateClass(g, fmt) = "unsupported" => CircClass(obj, fmt) # "unsupported")
   /\ obj' = Append(obj, g)
-  /\ UNCHANGED <<kind, fmt, n, status, doc, out, style>>
+  /\ UNCHANGED <<fmt2, kind, fmt, n, status, doc, out, style>>
 
 ExportOK ==
   /\ kind = "circuit" /\ status = "build" /\ Len(obj) >= MinLen
   /\ CircClass(obj, fmt) # "unsupported"
   /\ status' = "exported"
   /\ doc' = [n |-> n, gates |-> obj, op |-> OpZero]
-  /\ UNCHANGED <<kind, fmt, n, obj, out, style>>
+  /\ UNCHANGED <<fmt2, kind, fmt, n, obj, out, style>>
 
 RefuseCore ==
   /\ kind = "circuit" /\ status = "build" /\ Len(obj) >= MinLen
   /\ CircClass(obj, fmt) # "supported"
   /\ status' = "refused"
-  /\ UNCHANGED <<kind, fmt, n, obj, doc, out, style>>
+  /\ UNCHANGED <<fmt2, kind, fmt, n, obj, doc, out, style>>
 Refuse == RefuseCore /\ EmitRec("refused", [n |-> 0, gates |-> <<>>])
 
 Import ==
@@ -135,7 +146,37 @@ Import ==
   /\ out' = [n |-> doc.n, gates |-> CanonCirc(doc).gates, op |-> OpZero]
   /\ status' = "imported"
   /\ EmitRec("imported", [n |-> out'.n, gates |-> out'.gates])
-  /\ UNCHANGED <<kind, fmt, n, obj, doc, style>>
+  /\ UNCHANGED <<fmt2, kind, fmt, n, obj, doc, style>>
+
+\* ---- direct conversion between two external formats: translate_circuit(doc, target = f2, source = fmt) ----------
+\* enabled iff every gate is supported by BOTH formats; the converted document is a document of format f2 (its Python
+\* type is ExpectedType(f2)) with the same abstract content, so Import (now reading format f2) returns the source
+\* circuit:  Import(f2, Convert(fmt, f2, Export(fmt, c))) = c.   cirq and sympy can only be written: for them the
+\* converted document must equal the direct export Export(f2, c).
+ConvertCore(f2) ==
+  /\ kind = "circuit" /\ status = "exported" /\ fmt2 = "none" /\ f2 \in ConvTargets \ {fmt} /\ Len(obj) >= 1
+  /\ CircClass(doc.gates, f2) # "unsupported"
+  /\ fmt2' = f2
+  /\ status' = (IF f2 \in OneWay THEN "converted-oneway" ELSE "exported")
+  /\ UNCHANGED <<kind, fmt, n, obj, doc, out, style>>
+Convert(f2) ==
+  /\ ConvertCore(f2)
+  /\ ((Emit /\ f2 \in OneWay) => PrintT(<<"TR", ToJson([Rec("converted-oneway", [n |-> 0, gates |-> <<>>]) EXCEPT
+            !.fmt2 = f2, !.cls = Worse(CircClass(obj, fmt), CircClass(obj, f2))])>>))
+
+ConvertRefuseCore(f2) ==
+  /\ kind = "circuit" /\ status = "exported" /\ fmt2 = "none" /\ f2 \in ConvTargets \ {fmt} /\ Len(obj) >= 1
+  /\ CircClass(doc.gates, f2) # "supported"
+  /\ fmt2' = f2
+  /\ status' = "refused"
+  /\ UNCHANGED <<kind, fmt, n, obj, doc, out, style>>
+ConvertRefuse(f2) ==
+  /\ ConvertRefuseCore(f2)
+  /\ (Emit => PrintT(<<"TR", ToJson([Rec("refused", [n |-> 0, gates |-> <<>>]) EXCEPT
+            !.fmt2 = f2, !.cls = Worse(CircClass(obj, fmt), CircClass(obj, f2))])>>))
+
+ConvertStep       == kind = "circuit" /\ status = "exported" /\ fmt2 = "none" /\ \E f2 \in ConvTargets : Convert(f2)
+ConvertRefuseStep == kind = "circuit" /\ status = "exported" /\ fmt2 = "none" /\ \E f2 \in ConvTargets : ConvertRefuse(f2)
 
 \* ---- gates: eval(repr(g)) ----------------------------------------------------
 ReprEval(g) ==
@@ -145,14 +186,14 @@ ReprEval(g) ==
   /\ out' = doc'
   /\ status' = "evaluated"
   /\ (Emit => PrintT(<<"TR", ToJson([kind |-> kind, fmt |-> fmt, n |-> n, obj |-> <<g>>, style |-> style,
-                                     status |-> "evaluated", out |-> [n |-> n, gates |-> <<g>>], cls |-> "supported"])>>))
-  /\ UNCHANGED <<kind, fmt, n, style>>
+                                     status |-> "evaluated", out |-> [n |-> n, gates |-> <<g>>], cls |-> "supported", cls1 |-> "supported", fmt2 |-> "none"])>>))
+  /\ UNCHANGED <<fmt2, kind, fmt, n, style>>
 
 \* ---- operators ---------------------------------------------------------------
 AddTerm(w, cf) ==
   /\ kind = "op" /\ status = "build" /\ Len(obj) < MaxTerms
   /\ obj' = Append(obj, [w |-> w, c |-> cf])
-  /\ UNCHANGED <<kind, fmt, n, status, doc, out, style>>
+  /\ UNCHANGED <<fmt2, kind, fmt, n, status, doc, out, style>>
 
 OpRoundTrip ==
   /\ kind = "op" /\ status = "build" /\ Len(obj) >= MinLen
@@ -160,21 +201,28 @@ OpRoundTrip ==
   /\ doc' = out'
   /\ status' = "converted"
   /\ EmitRec("converted", [n |-> n, gates |-> <<>>])
-  /\ UNCHANGED <<kind, fmt, n, obj, style>>
+  /\ UNCHANGED <<fmt2, kind, fmt, n, obj, style>>
 
 \* (guards first: TLC evaluates the alphabet only where an action can be taken)
 AddGateStep == kind = "circuit" /\ status = "build" /\ Len(obj) < MaxLen /\ \E g \in Alphabet(n, Toks, {FALSE}) : AddGate(g)
 ReprStep    == kind = "gate" /\ status = "build" /\ \E g \in Alphabet(n, Toks \cup StrToks, BOOLEAN) : ReprEval(g)
 AddTermStep == kind = "op" /\ status = "build" /\ Len(obj) < MaxTerms /\ \E w \in AllWords(n), cf \in Coefs : AddTerm(w, cf)
 
-Next == AddGateStep \/ ExportOK \/ Refuse \/ Import \/ ReprStep \/ AddTermStep \/ OpRoundTrip
+Next == AddGateStep \/ ExportOK \/ Refuse \/ Import \/ ConvertStep \/ ConvertRefuseStep \/ ReprStep \/ AddTermStep \/ OpRoundTrip
 
 Spec == Init /\ [][Next]_vars
 
 \* ---- invariants (S) ------------------------------------------------------------
 AlphabetOK    == (status = "build" /\ obj = <<>>) => \A g \in Alphabet(n, Toks \cup StrToks, BOOLEAN) : GateOK(g, n)
 RoundTripInv  == status = "imported" => CircDiff([n |-> n, gates |-> obj], out) = "equal"
-RefuseInv     == status = "refused" => CircClass(obj, fmt) # "supported"
+RefuseInv     == status = "refused" => (CircClass(obj, fmt) # "supported" \/ (fmt2 # "none" /\ CircClass(obj, fmt2) # "supported"))
+\* supported by both formats => the direct conversion is enabled and cannot be refused; unsupported by the target => only refusal
+ConvertEnabled == (kind = "circuit" /\ status = "exported" /\ fmt2 = "none" /\ Len(obj) >= 1) =>
+   \A f2 \in ConvTargets \ {fmt} :
+      /\ (CircClass(doc.gates, f2) = "supported" => (ENABLED ConvertCore(f2) /\ ~ENABLED ConvertRefuseCore(f2)))
+      /\ (CircClass(doc.gates, f2) = "unsupported" => (ENABLED ConvertRefuseCore(f2) /\ ~ENABLED ConvertCore(f2)))
+ConvertedInv == (status \in {"exported", "imported", "converted-oneway"} /\ fmt2 # "none") =>
+                   (CircClass(obj, fmt) # "unsupported" /\ CircClass(obj, fmt2) # "unsupported")
 ExportedInv   == status \in {"exported", "imported"} => CircClass(obj, fmt) # "unsupported"
 \* supported set => export enabled (and refusal is not a behaviour of the specification)
 SupportedEnabled == (kind = "circuit" /\ status = "build" /\ Len(obj) >= MinLen /\ CircClass(obj, fmt) = "supported")
